@@ -529,7 +529,7 @@ def _byte(v):
         v = v._int()
     if isinstance(v, SymInt):
         if v.lo < 0 or v.hi > 255:
-            if core.cur().branch(sym_or(v < 0, v > 255).e):
+            if bool(truth(sym_or(v < 0, v > 255))):
                 raise ValueError("byte must be in range(0, 256)")
             v = SymInt(v.e, max(v.lo, 0), min(v.hi, 255))
             v = core.mk_int(v.e, v.lo, v.hi)
@@ -572,7 +572,7 @@ def sym_index(seq, i):
     if isinstance(i, SymBool):
         i = i._int()
     if lo < -n or hi >= n:
-        if core.cur().branch(sym_or(i < -n, i >= n).e):
+        if bool(truth(sym_or(i < -n, i >= n))):
             raise IndexError("index out of range")
         lo, hi = max(lo, -n), min(hi, n - 1)
     if lo < 0:
@@ -689,10 +689,54 @@ def _utf8_items(cp):
     if c.branch((cp < 0x800).e):
         return [0xC0 | (cp >> 6), 0x80 | (cp & 0x3F)]
     if c.branch((cp < 0x10000).e):
-        if c.branch(sym_and(cp >= 0xD800, cp <= 0xDFFF).e):
+        if bool(truth(sym_and(cp >= 0xD800, cp <= 0xDFFF))):
             raise UnicodeEncodeError("utf-8", "", 0, 1, "surrogates not allowed")
         return [0xE0 | (cp >> 12), 0x80 | ((cp >> 6) & 0x3F), 0x80 | (cp & 0x3F)]
     return [0xF0 | (cp >> 18), 0x80 | ((cp >> 12) & 0x3F), 0x80 | ((cp >> 6) & 0x3F), 0x80 | (cp & 0x3F)]
+
+
+class SymList(list):
+    """list whose integer indexes may be symbolic: out-of-range is decided by one fork, an in-range
+    index forks over at most len(list) values (instead of over every value of the integer)"""
+
+    def _idx(self, i):
+        if isinstance(i, SymBool):
+            i = i._int()
+        if isinstance(i, SymInt):
+            n = len(self)
+            if i.lo < -n or i.hi >= n:
+                if bool(truth(sym_or(i < -n, i >= n))):
+                    raise IndexError("list index out of range")
+            return core.cur().concretize(i)
+        return i
+
+    def __getitem__(self, i):
+        if isinstance(i, slice):
+            return list.__getitem__(self, clip_slice(i, len(self)) if any(isinstance(v, (SymInt, SymBool)) for v in (i.start, i.stop, i.step)) else i)
+        return list.__getitem__(self, self._idx(i))
+
+    def __setitem__(self, i, v):
+        if isinstance(i, slice):
+            return list.__setitem__(self, i, v)
+        return list.__setitem__(self, self._idx(i), v)
+
+    def __delitem__(self, i):
+        if isinstance(i, slice):
+            return list.__delitem__(self, i)
+        return list.__delitem__(self, self._idx(i))
+
+    def pop(self, i=-1):
+        if isinstance(i, (SymInt, SymBool)):
+            if len(self) == 0:
+                raise IndexError("pop from empty list")
+            i = self._idx(i)
+        return list.pop(self, i)
+
+    def insert(self, i, v):
+        if isinstance(i, (SymInt, SymBool)):
+            n = len(self)
+            i = core.cur().concretize(ite(i < -n, -n, ite(i > n, n, i)))
+        return list.insert(self, i, v)
 
 
 def is_symkey(x):
